@@ -6,6 +6,7 @@ import warnings
 
 import sim.bootstrap  # noqa: F401
 from sim.machine import Machine, Violation
+from sim.cqprobe import CqProbeMixin
 from sim.observers import ObserversMixin
 from sim.ops import OpsMixin
 from sim.oracles import OraclesMixin
@@ -15,7 +16,7 @@ from sim.rejects import RejectsMixin
 warnings.filterwarnings("ignore")
 
 
-class HistMachine(OpsMixin, OraclesMixin, ObserversMixin, RejectsMixin, Machine):
+class HistMachine(CqProbeMixin, OpsMixin, OraclesMixin, ObserversMixin, RejectsMixin, Machine):
     pass
 
 
